@@ -41,8 +41,14 @@ func genC18(c *Ctx) {
 		"flatmap lc 1 src 0 1,2,3",
 		"zip 2 peek src 0 1,2,3 flatmap fromiter 4,5",
 		"flatmap merge 2 src 0 1,3 src 1 2",
+		"lc 1 frommapent 1,2,3,4",
+		"map add:1 frommapval 5,6,7",
+		"lc 1 fromiter2 1,2,3",
+		"concat 2 frommapent 1,2,3,4 lc 2 fromiter2 100",
+		"merge 2 fromiter2 1,3 fromiter2 2,4",
+		"zip 2 fromiter2 1,2,3 fromiter 4,5,6",
 	}
-	specEndings := []string{"collect all nofault", "collect take:1 nofault", "collect take:2 nofault", "user all err@1", "user all perr@2", "collect all cancel@2", "user all err@4"}
+	specEndings := []string{"collect all nofault", "collect take:1 nofault", "collect take:2 nofault", "collect take:3 nofault", "collect take:4 nofault", "user all err@1", "user all perr@2", "collect all cancel@2", "user all err@4"}
 	for _, p := range specReusable {
 		for _, e1 := range specEndings {
 			c.Case(true, "SPEC "+strings.Join([]string{p, e1, "collect all nofault"}, " || "))
